@@ -278,6 +278,12 @@ func RunC10(r *core.Run) {
 		}
 	})
 	st.Space = "boundary neighbourhoods (±3) of 2^8,2^16,2^24,2^31,2^32,10^9,10^10,10^19,10^20,2^63,2^64,2^67 and of k*2^16,k*2^32,k*2^64 (k<=12) with 0/1/2/5/11/25 leading zeros; wrap residues k*2^n+small; all-9 / all-0 / 10^k strings of every length 1..40; 0..300; plus seed-derived random digit strings"
+	// sequences of contact parameters: each numeric parameter must be judged from ITS digits only,
+	// whatever stood before it (a rejected q, a value-less expires / tag / q, other parameters)
+	r.Stage("contact-parameter-sequences", r.Pick(400000, 30000000), func(w *core.Worker, idx int64) {
+		rr := core.NewRand(r.Seed, 0xC10, 7, uint64(idx))
+		checkParamSequence(w, rr, nums)
+	})
 	// status codes: all 1000
 	st = r.Stage("status-codes", 1000, func(w *core.Worker, idx int64) {
 		code := fmt.Sprintf("%03d", idx)
@@ -351,4 +357,157 @@ func RunC10(r *core.Run) {
 	r.Require("C10 rejected out-of-range uint values", r.Counter("uint_rejected_out_of_range"), 500)
 	r.Require("C10 contact expires judged", r.Counter("contact_expires_seen"), 500)
 	r.Require("C10 ports accepted", r.Counter("port_accepted"), 200)
+}
+
+// checkParamSequence: one contact value with 2..5 parameters (each known name at most once).
+func checkParamSequence(w *core.Worker, rr *core.Rand, nums []string) {
+	pick := func() string { return nums[rr.Intn(len(nums))] }
+	type want struct {
+		hasExp bool
+		exp    uint32
+		qSet   bool // q present with a value
+		qOK    bool
+		q      uint16
+		tag    string
+	}
+	var wt want
+	var sb strings.Builder
+	sb.WriteString([]string{"<sip:a>", "sip:a", "\"n\" <sip:a@b;x=1>"}[rr.Intn(3)])
+	names := []string{"q", "expires", "tag", "x", "y"}
+	// a random order of a random subset
+	for i := len(names) - 1; i > 0; i-- {
+		j := rr.Intn(i + 1)
+		names[i], names[j] = names[j], names[i]
+	}
+	k := rr.Range(2, 5)
+	for _, nm := range names[:k] {
+		sb.WriteString([]string{";", " ; ", ";\t"}[rr.Intn(3)])
+		sb.WriteString(gen.RandCase(rr, nm))
+		valueless := rr.Intn(4) == 0
+		if valueless {
+			if rr.Intn(3) == 0 {
+				sb.WriteString("=") // "name=" with nothing after it
+			}
+			continue
+		}
+		sb.WriteString([]string{"=", " = ", "=\t"}[rr.Intn(3)])
+		switch nm {
+		case "expires":
+			s := pick()
+			sb.WriteString(s)
+			wt.hasExp = true
+			wt.exp = 0xffffffff
+			if v := bigOf(s); v.Cmp(bigU32) < 0 {
+				wt.exp = uint32(v.Uint64())
+			}
+		case "q":
+			var s string
+			switch rr.Intn(5) {
+			case 0:
+				s = pick() // integer part only: fine iff 0 or 1
+			case 1:
+				s = pick() + "." + []string{"", "0", "5", "25", "125"}[rr.Intn(5)]
+			case 2:
+				s = "0." + pick()
+			case 3:
+				s = "1." + []string{"", "0", "00", "000", "1", "0000"}[rr.Intn(6)]
+			default:
+				s = []string{"0", "1", "0.5", ".5", "1.", "0.999", "0.125"}[rr.Intn(7)]
+			}
+			sb.WriteString(s)
+			wt.qSet = true
+			wt.qOK, wt.q = refQ(s)
+		case "tag":
+			t := string(rr.Bytes(rr.Range(1, 8), []byte("abcXYZ0189-.")))
+			sb.WriteString(t)
+			wt.tag = t
+		default:
+			sb.WriteString(pick())
+		}
+	}
+	sb.WriteString("\r\nX")
+	in := []byte(sb.String())
+	o := &nameAddrObj{fn: sipsp.ParseOneContact}
+	cuts := []int{len(in)}
+	if rr.Bool() {
+		cuts = CutsRandom(nil, rr, 0, len(in), rr.Range(1, 4))
+	}
+	_, e, pan := driveAll(o, in, cuts)
+	w.Eval(1)
+	if pan != "" {
+		w.Inc("panicked(left to C04)")
+		return
+	}
+	fail := func(cls, what string) {
+		w.Fail(cls, func() *core.Violation { return core.V(what, in, map[string]any{"cuts": cuts}) })
+	}
+	if e != sipsp.ErrHdrOk {
+		fail("sequence-rejected", fmt.Sprintf("ParseOneContact(%q) -> %s: every parameter is syntactically fine", in, errName(e)))
+		return
+	}
+	w.Inc("sequences_accepted")
+	w.Nontrivial(core.HashBytes(in))
+	pf := &o.cur
+	if pf.HasExpires != wt.hasExp || (wt.hasExp && pf.Expires != wt.exp) || (!wt.hasExp && pf.Expires != 0) {
+		fail("sequence-expires", fmt.Sprintf("contact %q: HasExpires=%v Expires=%d, the written expires parameter gives present=%v value=%d", in, pf.HasExpires, pf.Expires, wt.hasExp, wt.exp))
+		return
+	}
+	if wt.qSet && wt.qOK && pf.Q != wt.q {
+		fail("sequence-q", fmt.Sprintf("contact %q: Q=%d, the written q gives %d", in, pf.Q, wt.q))
+		return
+	}
+	if (!wt.qSet || !wt.qOK) && pf.Q != 0 {
+		fail("sequence-q-unset", fmt.Sprintf("contact %q: Q=%d although q is absent, value-less or out of range", in, pf.Q))
+		return
+	}
+	if wt.qSet && !wt.qOK && pf.ParamErr == 0 {
+		fail("sequence-q-not-flagged", fmt.Sprintf("contact %q: the q value is out of range but ParamErr is not set", in))
+		return
+	}
+	if got := string(pf.Tag.Get(in)); got != wt.tag {
+		fail("sequence-tag", fmt.Sprintf("contact %q: Tag=%q, written %q", in, got, wt.tag))
+	}
+}
+
+// refQ judges a q value text: integer part 0 or 1 (any number of leading zeros is a number too),
+// at most three decimals, value <= 1.
+func refQ(s string) (ok bool, q uint16) {
+	dot := strings.IndexByte(s, '.')
+	ip, dp := s, ""
+	if dot >= 0 {
+		ip, dp = s[:dot], s[dot+1:]
+	}
+	if len(s)-maxInt0(dot) > 4 && dot >= 0 || len(dp) > 3 {
+		return false, 0
+	}
+	for _, c := range ip + dp {
+		if c < '0' || c > '9' {
+			return false, 0
+		}
+	}
+	iv := big.NewInt(0)
+	if ip != "" {
+		iv = bigOf(ip)
+	}
+	d := 0
+	for _, c := range dp {
+		d = d*10 + int(c-'0')
+	}
+	for k := len(dp); k < 3; k++ {
+		d *= 10
+	}
+	switch {
+	case iv.Sign() == 0:
+		return true, uint16(d)
+	case iv.Cmp(big.NewInt(1)) == 0 && d == 0:
+		return true, 1000
+	}
+	return false, 0
+}
+
+func maxInt0(a int) int {
+	if a < 0 {
+		return 0
+	}
+	return a
 }
